@@ -8,12 +8,14 @@ WS = b" \t\r\n"
 # APIs whose accept set is decided by the validating FSM + the Go trailing rule (compared with the model exactly)
 DOC_BOOL_MODEL = ["valid", "valids", "encv", "cfgstd", "marsh"]
 # whole-document decoders: accept = no syntax error.  Compared with the two-sided oracle (and reported against the model)
-DOC_DEC = ["uiface", "ubytes", "dec", "uraw", "unode", "ustruct", "uraws", "umap", "uifstd", "stdnode"]
+DOC_DEC = ["uiface", "ubytes", "dec", "uraw", "unode", "ustruct", "uraws", "umap", "uifstd", "urawstd", "stdnode"]
 # decoders that run with ValidateString (ConfigStd): string *contents* are checked more strictly than encoding/json.Valid
 # does (control characters, UTF-8), which the property does not speak about; only the structural side is compared
-STRICT_STRINGS = {"uifstd"}
+STRICT_STRINGS = {"uifstd", "urawstd"}
 # prefix APIs exposing the position pair (ret, p)
 POS_APIS = ["skip", "va", "vs", "sa", "ss"]
+# the same natives called with flags = MASK_VALIDATE_STRING (advance_string_validate): model field v5
+POS_APIS_VS = ["va5", "vs5", "sa5", "ss5"]
 # whole-document APIs exposing the captured text (since fix 5faba38 NewRaw rejects bytes after the value)
 NEWRAW_APIS = ["newraw", "newrawc"]
 # prefix APIs exposing the captured text
@@ -156,7 +158,7 @@ def compare_case(cid, kind, doc, impl, model, limit=4096):
             else:
                 add("violation", "malformed document accepted and the captured text is not its first value", api, impl[api])
 
-    for api in POS_APIS:
+    for api in POS_APIS + [a for a in POS_APIS_VS if a in impl]:
         f = impl[api].split(":")
         acc = not f[0].startswith("-") and f[0] != "PANIC"
         prefix_api(api, acc, acc and len(f) > 2 and f[2] == "1")
@@ -213,6 +215,21 @@ def compare_case(cid, kind, doc, impl, model, limit=4096):
                 acc = impl[api] == "ok"
                 if acc != (m_valid == "1"):
                     add("tie", "skip_one + CheckTrailings: model says %s" % m_valid, api, impl[api])
+        # flags = MASK_VALIDATE_STRING: natives exactly, ConfigStd RawMessage capture = skip_one(flags) + CheckTrailings
+        if "v5" in model and model["v5"] != "undef" and "va5" in impl:
+            mv = model["v5"].split(":")
+            for api in POS_APIS_VS:
+                f = impl[api].split(":")
+                if mv[0] == "ok":
+                    good = f[0] == mv[1] and f[1] == mv[2]
+                else:
+                    good = f[0] == "-" + mv[1]
+                if not good:
+                    add("tie", "validate_one/skip_one with MASK_VALIDATE_STRING: model says %s" % model["v5"], api, impl[api])
+            want = mv[0] == "ok" and doc[int(mv[2]):].strip(WS) == b""
+            if (impl["urawstd"] == "ok") != want:
+                add("tie", "ConfigStd RawMessage capture = skip_one(MASK_VALIDATE_STRING) + CheckTrailings: model says %s" % model["v5"],
+                    "urawstd", impl["urawstd"])
         # the non-validating skippers (skip_one_fast): exact model comparison on every input, both blobs
         if "fo" in model:
             mv = model["fo"].split(":")
